@@ -234,8 +234,8 @@ def c05_run(tr, c):
     last = tr.steps[-1] if tr.steps else None
     if last is not None and last["res"] == "raised":
         ph = last["phases"].get("distribute")
-        if ph and ph.get("exc") and "RuntimeError" in str(ph.get("exc")) and tr.step_error:
-            out.append(viol("C05", last["t"], f"an inventory became negative and next_step() raised {tr.step_error[1]} instead of "
+        if ph and ph.get("exc") and tr.step_error:
+            out.append(viol("C05", last["t"], f"the distribution phase failed ({ph.get('exc')[0]}) and next_step() raised {tr.step_error[1]} instead of "
                                               f"returning the crashed code", message=str(tr.step_error[2])[:160]))
     return out
 
